@@ -57,7 +57,8 @@ Record Core0 (p : list nat) (s : st) : Prop := mkCore0 {
   c_q1 : NoDup (map inP (ifl s));
   c_q2 : forall a r b, In (a, r) (infl s) -> In b r -> inP b = inP a;
   c_t1 : tmo_armed s = true -> tmo_var s = true;
-  c_t2 : tmo_var s = true -> tmo_armed s = false -> is_done s = true
+  c_t2 : tmo_var s = true -> tmo_armed s = false -> is_done s = true;
+  c_ifl_sync : forall a, In a (ifl s) -> sync_of addrs a = None
 }.
 
 Definition Core (p : list nat) (s : st) : Prop :=
@@ -126,12 +127,12 @@ Qed.
 
 (* ---- an asynchronous attempt: the future is pending, the rest of the iterator is bound to it ---- *)
 Lemma core_open_async a l q s X :
-  Core ((a :: l) ++ q) s -> is_done s = false ->
+  Core ((a :: l) ++ q) s -> is_done s = false -> sync_of addrs a = None ->
   (forall b, In b (a :: l) -> inP b = X) -> (forall e, In e (ifl s) -> inP e <> X) ->
   let s1 := open_attempt addrs a s in
   Core q (set_infl (infl s1 ++ [(a, l)]) s1).
 Proof.
-  intros [C CL] P HX HI. destruct (fresh_of_cnt _ _ _ _ _ C eq_refl) as [F1 F2].
+  intros [C CL] P SY HX HI. destruct (fresh_of_cnt _ _ _ _ _ C eq_refl) as [F1 F2].
   pose proof (pending_fut _ P) as PF.
   cbv zeta. rewrite open_attempt_eq. split.
   constructor; simpl; try (apply C; fail).
@@ -157,6 +158,8 @@ Proof.
   - intros a' r b H Hb. apply in_app_or in H. destruct H as [H|[H|[]]].
     + apply (c_q2 _ _ C a' r b H Hb).
     + inversion H; subst. rewrite (HX b), (HX a'); auto; [left; auto|right; auto].
+  - intros x Hx. unfold ifl in Hx; simpl in Hx. rewrite map_app in Hx. apply in_app_or in Hx.
+    destruct Hx as [Hx|[Hx|[]]]; [apply (c_ifl_sync _ _ C); auto|subst; auto].
   - simpl. intros _ HL. rewrite !app_length. simpl. rewrite CL; auto.
 Qed.
 
